@@ -49,3 +49,16 @@ Proof. exact prefix_widths_ok_true. Qed.
 Theorem C06_code_points_match_registry :
   registry_agrees int_enum_members tls_registry = true /\ registry_covers int_enum_members tls_registry = true.
 Proof. exact tls_code_points. Qed.
+
+(* CertificateRequest (RFC 5246 7.4.4; without supported_signature_algorithms for TLS 1.0 / 1.1) and CertificateStatus
+   (RFC 6066 8): the specification decodes what it encodes, whatever follows the handshake message *)
+Theorem C06_certificate_request_coherent : forall types sigalgs cas b s,
+  Forall (fun z => 0 <= z < 256) types ->
+  match sigalgs with Some l => Forall (fun z => 0 <= z < 65536) l | None => True end ->
+  enc_certificate_request types sigalgs cas = Some b ->
+  dec_certificate_request (match sigalgs with Some _ => true | None => false end) (b ++ s) = Some ((types, sigalgs, cas), s).
+Proof. exact dec_enc_certificate_request. Qed.
+
+Theorem C06_certificate_status_coherent : forall ty resp b s, 0 <= ty < 256 ->
+  enc_certificate_status ty resp = Some b -> dec_certificate_status (b ++ s) = Some ((ty, resp), s).
+Proof. exact dec_enc_certificate_status. Qed.
